@@ -13,6 +13,15 @@ NA = {
 
 # id -> (engine, technique, level text, level note, design ref)
 CHECKS = {
+ "C03": ("sumdbsim", "deterministic simulation of the prover/verifier exchange: real Prove*/Check* over a failing HashReader or the faulty tile transport, seeded in-transit mutation of the proof tuple, reference RFC 6962 prover and RFC 9162 verifier as oracle; exhaustive small (t,n) sweep",
+   "All (t, n) pairs up to 160 are enumerated (proof equals the reference, accepted, and presented under all 25 shifted (t, n) pairs accepted iff the RFC 9162 algorithm accepts); seeded runs add trees up to 300 real records and virtual uniform trees up to 2^41 leaves, 22 kinds of tuple mutation, HashReader faults and proofs through the authenticating tile reader. Non-termination of a call is reported after 20 s.",
+   "The soundness half is a pure relation on the tuple; the simulator contributes the HashReader/tile-transport fault model. Trusts SHA-256 and sim/ref. Sampled beyond the swept range.", "4 (C03)"),
+ "C07": ("sumdbsim", "deterministic simulation of a cosigning chain over a corrupting transport with simulator-implemented Verifiers/Verifier/Signer seams (spies, verdict-decided fakes, failing signers, reused receive buffers); reference note parser + crypto/ed25519 oracle",
+   "Seeded chains of origin, 0-4 witnesses and a final reader; every Open is compared with the documented semantics computed independently (accept/reject, text, verified/unverified partition, UnverifiedNoteError content, each verified signature backed by a recorded Verify call over the returned text), every Sign with the exact documented bytes.",
+   "Trusts Ed25519 and the reference parser. Repeated signature lines of one known key: only the first is verified, as the package documents.", "4 (C07)"),
+ "C09": ("sumdbsim", "deterministic simulation of a log store built only from tlog.StoredHashes with failing store reads, compared after every append with a reference RFC 6962 tree; virtual uniform logs for sizes beyond memory",
+   "Seeded append histories (1-120, thorough 2000 records; texts with Unicode, U+FFFD, buffer-boundary lengths) with store read faults at random appends; after each append store length, coordinates of every new position, every stored hash and TreeHash(m) for all m (<=128) are checked against the reference; coordinates up to 2^60 records and a virtual log up to 2^44 records cover index arithmetic beyond 32 bits; text encodings round-trip.",
+   "The layout laws are pure relations; the only injectable fault is the HashReader seam. Trusts SHA-256 and sim/ref.", "4 (C09)"),
  "C01": ("sumdbsim", "deterministic simulation with fault injection: real sumdb.Client against a simulated faulty network, cache and config under a tape-driven scheduler with crash-restart; reference RFC 6962/signed-note oracles at every seam",
    "Seeded search over tree shapes, tile heights, 0-3 faults of 20 network kinds + disk/config faults on any response class, concurrent clients, crash-restarts and log growth, plus a systematic placement of each network fault kind on each of the first 8 responses of a lookup for small logs; oracles evaluated at every Lookup return, WriteCache and WriteConfig, then a heal phase checks bounded liveness on the surviving durable state.",
    "Trusts SHA-256/Ed25519 and the reference implementations in sim/ref. A client that consumed a non-benign fault may fail later lookups (never return or store unauthenticated data); disk faults relax every client of the machine. Sampled, not exhaustive.", "4 (C01)"),
